@@ -13,6 +13,7 @@ Vocabulary
 from __future__ import annotations
 
 import copy
+import hashlib
 import itertools
 import numbers
 import _signal
@@ -195,6 +196,19 @@ _VALUE_NAME_BY_ID = {id(v): n for n, v, _c in _VAL_LIST}
 PROP_NAMES = sorted(p.__name__ for p in SP.ALL)
 
 
+# value classes that are near misses of a property keep their name in discriminators; everything else is "wrong-type"
+_NEAR = {
+  "FontFamily": {"tuple-bad-item", "list", "bare-generic", "str"},
+  "Extent": {"extent-em"}, "Origin": {"coord-em"}, "Position": {"position-em"},
+  "LineHeight": {"special"}, "RubyReserve": {"special"}, "TextEmphasis": {"special"}, "TextOutline": {"special"},
+  "TextShadow": {"special"}, "FillLineGap": {"int"},
+}
+
+
+def near_miss_class(prop_name, vclass):
+  return vclass if vclass in _NEAR.get(prop_name, ()) else "wrong-type"
+
+
 class NotAProperty:          # "NOPROP": a class that is not a style property
   @staticmethod
   def validate(_v):
@@ -257,6 +271,8 @@ class World:
       self.kind[name] = kind
       self.elems.append(name)
     self.names = {id(o): n for n, o in self.objs.items()}
+    self.names_or_none = dict(self.names)
+    self.names_or_none[id(None)] = None
     self.n = len(self.elems)
 
   def nameof(self, o):
@@ -309,7 +325,8 @@ class StepBudgetExceeded(Exception):
   pass
 
 
-OP_TIMER_S = 0.1
+OP_TIMER_S = 0.05
+_HUNG_BEFORE = set()
 _SIGALRM = int(signal.SIGALRM)
 TRACE_BUDGET = 20000
 
@@ -360,13 +377,15 @@ def _run_traced(fn, args):
     sys.settrace(old)
 
 
-def run_event(w: World, ev, retry_world=None):
+def run_event(w: World, ev, retry_world=None, guard=True):
   """Executes the event.  Returns (outcome, world): outcome is "ok", "exc:<Type>" or "hang".  A call that does not
   return within OP_TIMER_S is re-run on `retry_world()` (a fresh replay) under a deterministic step budget; only if the
   budget is exhausted as well is the outcome "hang" (a slow machine cannot fake a hang).  After "hang" the world must
   be discarded.  The kernel's per-history alarm is suspended while the per-call alarm is armed and restored afterwards."""
   fn, args = _closure(w, ev)
-  armed = callable(_signal.getsignal(_SIGALRM))     # only where the kernel installed its alarm handler
+  # guard=False: replays of set-up events and of history events (each of them returned when it was first executed
+  # under the guard, a call that hangs never becomes part of a history) run without the per-call alarm
+  armed = guard and callable(_signal.getsignal(_SIGALRM))     # only where the kernel installed its alarm handler
   if not armed:
     try:
       fn(*args)
@@ -378,6 +397,23 @@ def run_event(w: World, ev, retry_world=None):
   remaining, _ = signal.getitimer(signal.ITIMER_REAL)
   t0 = time.monotonic()
   res = None
+  hkey = (ev[0], ev[1], ev[2] if len(ev) > 2 and isinstance(ev[2], str) else None)
+  if hkey in _HUNG_BEFORE and retry_world is not None:
+    # this call shape exhausted the step budget before in this process: skip the alarm phase and run it under the
+    # (deterministic, complete) step budget right away, on the world at hand
+    signal.setitimer(signal.ITIMER_REAL, 0)
+    try:
+      _run_traced(fn, args)
+      res = "ok"
+    except StepBudgetExceeded:
+      res, w = "hang", None
+    except RecursionError:
+      res = "exc:RecursionError"
+    except Exception as e:  # pylint: disable=broad-except
+      res = "exc:" + type(e).__name__
+    if remaining > 0:
+      signal.setitimer(signal.ITIMER_REAL, max(0.05, remaining - (time.monotonic() - t0)))
+    return res, w
   try:
     # everything between arming and disarming sits inside this try: the alarm may be delivered at any byte code
     try:
@@ -408,6 +444,7 @@ def run_event(w: World, ev, retry_world=None):
         res = "ok"
       except StepBudgetExceeded:
         res, out = "hang", None
+        _HUNG_BEFORE.add(hkey)
       except RecursionError:
         res = "exc:RecursionError"
       except Exception as e:  # pylint: disable=broad-except
@@ -446,26 +483,44 @@ def _enc_sets(lst):
   return tuple(_enc_step(s) for s in lst)
 
 
+_UNK = object()
+_PLAIN_TYPES = (type(None), str, int, bool, Fraction)
+_LINKS = ("_doc", "_parent", "_first_child", "_last_child", "_previous_sibling", "_next_sibling", "_region")
+
+
 def priv_projection(w: World):
   """Every instance attribute of every object, encoded with object names (complete state of the world)."""
+  g = w.names_or_none.get
   n = w.nameof
   out = []
   for name in w.elems:
     d = w.objs[name].__dict__
-    extra = tuple(sorted((k, repr(v)[:40]) for k, v in d.items() if k not in _ELEM_KNOWN)) if len(d) > 15 or not _ELEM_KNOWN.issuperset(d) else ()
-    out.append((
-      n(d["_doc"]), n(d["_parent"]), n(d["_first_child"]), n(d["_last_child"]), n(d["_previous_sibling"]),
-      n(d["_next_sibling"]), n(d["_region"]), _enc_styles(d["_styles"]), _enc_sets(d["_sets"]),
-      enc_plain(d["_begin"]), enc_plain(d["_end"]), enc_plain(d["_id"]), enc_plain(d["_lang"]), enc_space(d["_space"]),
-      enc_plain(d.get("_text")), extra))
+    if _ELEM_KNOWN.issuperset(d):
+      extra = ()
+    else:
+      extra = tuple(sorted((k, repr(v)[:40]) for k, v in d.items() if k not in _ELEM_KNOWN))
+    links = (g(id(d["_doc"]), _UNK), g(id(d["_parent"]), _UNK), g(id(d["_first_child"]), _UNK), g(id(d["_last_child"]), _UNK),
+             g(id(d["_previous_sibling"]), _UNK), g(id(d["_next_sibling"]), _UNK), g(id(d["_region"]), _UNK))
+    if _UNK in links:
+      links = tuple(n(d[f]) for f in _LINKS)
+    st, se, sp = d["_styles"], d["_sets"], d["_space"]
+    b, e, i, la, tx = d["_begin"], d["_end"], d["_id"], d["_lang"], d.get("_text")
+    out.append(links + (
+      _enc_styles(st) if st or not isinstance(st, dict) else (),
+      _enc_sets(se) if se or not isinstance(se, list) else (),
+      b if type(b) in _PLAIN_TYPES else enc_plain(b), e if type(e) in _PLAIN_TYPES else enc_plain(e),
+      i if type(i) in _PLAIN_TYPES else enc_plain(i), la if type(la) in _PLAIN_TYPES else enc_plain(la),
+      sp.name if type(sp) is M.WhiteSpaceHandling else enc_space(sp),
+      tx if type(tx) in _PLAIN_TYPES else enc_plain(tx), extra))
   for name in w.docs:
     d = w.objs[name].__dict__
     regs = d["_regions"]
     extra = tuple(sorted((k, repr(v)[:40]) for k, v in d.items() if k not in _DOC_KNOWN)) if not _DOC_KNOWN.issuperset(d) else ()
+    iv = d["_initial_values"]
     out.append((
       n(d["_body"]), tuple((enc_plain(k), n(v)) for k, v in regs.items()) if isinstance(regs, dict) else repr(regs)[:80],
-      _enc_styles(d["_initial_values"]), enc_plain(d["_lang"]), repr(d["_cell_resolution"]), repr(d["_px_resolution"]),
-      repr(d["_active_area"]), enc_plain(d["_dar"]), extra))
+      _enc_styles(iv) if iv or not isinstance(iv, dict) else (), enc_plain(d["_lang"]), repr(d["_cell_resolution"]),
+      repr(d["_px_resolution"]), repr(d["_active_area"]), enc_plain(d["_dar"]), extra))
   return tuple(out)
 
 
@@ -476,7 +531,7 @@ PRIV_D = ("_body", "_regions", "_initial_values", "_lang", "_cell", "_px", "_aa"
 
 class Snap:
   """priv: tuple (see priv_projection); pub: name -> dict of public getter results (object names);
-  key: hashable canonical key = (priv, pub)."""
+  key: canonical key = digest of (priv, pub)."""
   __slots__ = ("priv", "pub", "key")
 
 
@@ -531,8 +586,11 @@ def snapshot(w: World, priv=None) -> Snap:
     pub[name] = {"body": n(d.get_body()), "regions": tuple(regs), "byid": byid, "init": init, "initg": initg,
                  "lang": enc_plain(d.get_lang())}
   s.pub = pub
-  s.key = (s.priv, tuple((k, tuple((f, tuple(v) if isinstance(v, list) else (tuple(sorted(v.items())) if isinstance(v, dict) else v))
+  full = (s.priv, tuple((k, tuple((f, tuple(v) if isinstance(v, list) else (tuple(sorted(v.items())) if isinstance(v, dict) else v))
                                    for f, v in pv.items())) for k, pv in pub.items()))
+  # canonical key handed to the kernel: 128-bit digest of the complete (private, public) projection, computed once
+  # per snapshot (the kernel hashes the repr of every successor key it is given; the projection is ~3 kB)
+  s.key = hashlib.blake2b(repr(full).encode("utf-8", "surrogatepass"), digest_size=16).hexdigest()
   return s
 
 
@@ -752,7 +810,7 @@ def invariant(w: World, s: Snap):
     ok = my_valid(prop, value)
     if ok is False:
       vn = valname(value)
-      vc = VALUE_CLASS.get(vn, "other")
+      vc = near_miss_class(propname(prop), VALUE_CLASS.get(vn, "other"))
       add("C15.style-valid", (store, propname(prop), vn), f"{store}:{propname(prop)}:{vc}", repr(value)[:120])
 
   for name in w.elems:
@@ -1128,7 +1186,9 @@ def arg_class(a, ev, w: World) -> str:
     if v == "NONE":
       return f"{tk}prop={p},val=none"
     ok = my_valid(getattr(SP, p), VALUES[v])
-    return f"{tk}prop={p},val={'valid' if ok else ('unjudged' if ok is None else 'invalid')}:{VALUE_CLASS[v]}"
+    if ok is False:
+      return f"{tk}prop={p},val=invalid:{near_miss_class(p, VALUE_CLASS[v])}"
+    return f"{tk}prop={p},val={'valid' if ok else 'unjudged'}"
   if op == "copy_to":
     s_, d_ = ev[1], ev[2]
     dk = kind.get(d_, "non-element" if d_ in ("NONE", "JUNK") else "?")
